@@ -274,6 +274,53 @@ func TestCampaign(t *testing.T) {
 			col.Check(rt, ev.JSON(c), v)
 		})
 	})
+	t.Run("large-tables", func(t *testing.T) {
+		// one table of one instance holds N entries on the intended side and M on the target side
+		// (N, M around powers of two, 0 included; partly the same keys with another group):
+		// thousands of adds, replaces and deletes in one reconciliation
+		sizes := []int{0, 1, 255, 257, 1023, 1024, 1025, 1030, 2047, 2049}
+		rapid.Check(t, func(rt *rapid.T) {
+			if rapid.IntRange(0, 29).Draw(rt, "run?") != 0 {
+				return
+			}
+			c := Case{NIsT: []string{"VRF-A"}, NIsI: []string{"VRF-A"}, IDBase: []uint64{0, 1 << 32}[rapid.IntRange(0, 1).Draw(rt, "idbase")]}
+			ni := []string{"DEFAULT", "VRF-A"}[rapid.IntRange(0, 1).Draw(rt, "ni")]
+			kind := []string{gen.V4, gen.V6, gen.MPLS, gen.NH}[rapid.IntRange(0, 3).Draw(rt, "table")]
+			id := uint64(0)
+			add := func(dst *[]hgen.Step, o *gen.Op) {
+				id++
+				o.ID = id
+				*dst = append(*dst, hgen.Step{Op: o})
+			}
+			add(&c.Base, &gen.Op{NI: ni, Kind: gen.NH, Act: gen.ADD, Key: "1", IP: "192.0.2.1"})
+			add(&c.Base, &gen.Op{NI: ni, Kind: gen.NHG, Act: gen.ADD, Key: "1", Hops: []gen.Hop{{Index: 1}}})
+			add(&c.Base, &gen.Op{NI: ni, Kind: gen.NHG, Act: gen.ADD, Key: "2", Hops: []gen.Hop{{Index: 1, Weight: gen.U(2)}}})
+			entry := func(i int, group uint64) *gen.Op {
+				switch kind {
+				case gen.V4:
+					return &gen.Op{NI: ni, Kind: gen.V4, Act: gen.ADD, Key: fmt.Sprintf("10.%d.%d.0/24", i/250, i%250), Group: group}
+				case gen.V6:
+					return &gen.Op{NI: ni, Kind: gen.V6, Act: gen.ADD, Key: fmt.Sprintf("2001:db8:%x::/48", i+1), Group: group}
+				case gen.MPLS:
+					return &gen.Op{NI: ni, Kind: gen.MPLS, Act: gen.ADD, Key: fmt.Sprint(1000 + i), Group: group}
+				}
+				return &gen.Op{NI: ni, Kind: gen.NH, Act: gen.ADD, Key: fmt.Sprint(100 + i), IP: fmt.Sprintf("198.51.100.%d", 1+int(group))}
+			}
+			n := sizes[rapid.IntRange(0, len(sizes)-1).Draw(rt, "intended-size")]
+			m := sizes[rapid.IntRange(0, len(sizes)-1).Draw(rt, "target-size")]
+			shift := []int{0, 3, 500}[rapid.IntRange(0, 2).Draw(rt, "shift")] // the target's keys start here: overlap with other payloads
+			for i := 0; i < n; i++ {
+				add(&c.ExtI, entry(i, 1))
+			}
+			for i := 0; i < m; i++ {
+				add(&c.ExtT, entry(shift+i, 2))
+			}
+			v := runCase(c)
+			v.Class("large-tables")
+			v.NonTrivial = n+m >= 255
+			col.Check(rt, ev.JSON(c), v)
+		})
+	})
 	col.MinimizeAll(minimize)
 }
 
